@@ -132,7 +132,13 @@ func signals() map[string]*signal {
 				}
 				var tags []string
 				items := projectMetrics(md, &tags)
-				return items, reqNumbers(tags), nil
+				reqs := reqNumbers(tags)
+				for _, tg := range tags {
+					if tg == shellTag {
+						reqs = append(reqs, shellMark) // reported as "shells" by measure
+					}
+				}
+				return items, reqs, nil
 			}},
 		"profiles": {set: xexporterhelper.NewProfilesQueueBatchSettings(), sig: xpipeline.SignalProfiles,
 			build: func(base int, tag string, sh shape, big map[int]bool) ([]byte, []item) {
@@ -157,6 +163,9 @@ func reqNumbers(tags []string) []int {
 	seen := map[int]bool{}
 	out := []int{}
 	for _, tg := range tags {
+		if tg == shellTag {
+			continue
+		}
 		k := -1
 		if i := strings.Index(tg, ".r"); i >= 0 {
 			rest := tg[i+2:]
@@ -219,19 +228,36 @@ func nonNil(it []item) []item {
 }
 
 // measured independently of the request's cached size: items as found, bytes of its encoding
-func measure(sg *signal, s *script, req exporterhelper.Request) ([]item, []int, int, error) {
+const shellMark = -1000
+
+type measured struct {
+	items  []item
+	reqs   []int
+	shells int // unnamed metrics without data points found in the part
+	size   int
+}
+
+func measure(sg *signal, s *script, req exporterhelper.Request) (measured, error) {
 	b, err := sg.set.Encoding.Marshal(req)
 	if err != nil {
-		return nil, nil, 0, err
+		return measured{}, err
 	}
-	items, reqs, err := sg.project(b)
+	items, all, err := sg.project(b)
 	if err != nil {
-		return nil, nil, 0, err
+		return measured{}, err
+	}
+	m := measured{items: nonNil(items), reqs: []int{}, size: len(items)}
+	for _, k := range all {
+		if k == shellMark {
+			m.shells++
+		} else {
+			m.reqs = append(m.reqs, k)
+		}
 	}
 	if s.Sizer == "bytes" {
-		return nonNil(items), reqs, len(b), nil
+		m.size = len(b)
 	}
-	return nonNil(items), reqs, len(items), nil
+	return m, nil
 }
 
 func makeReq(sg *signal, s *script, k int) (exporterhelper.Request, []item, error) {
@@ -269,13 +295,14 @@ func runSplit(s *script, sg *signal, rec *recorder, res *result) {
 	}
 	var got [][]int
 	emit := func(r exporterhelper.Request) bool {
-		items, reqs, size, err := measure(sg, s, r)
+		m, err := measure(sg, s, r)
 		if err != nil {
 			res.Error = "cannot project a returned part: " + err.Error()
 			return false
 		}
+		items := m.items
 		rec.calls++
-		rec.log(map[string]any{"ev": "emit", "k": rec.calls, "items": items, "reqs": reqs, "size": size}, nil)
+		rec.log(map[string]any{"ev": "emit", "k": rec.calls, "items": items, "reqs": m.reqs, "shells": m.shells, "size": m.size}, nil)
 		rec.log(map[string]any{"ev": "emit_end", "k": rec.calls, "ok": true}, nil)
 		ids := []int{}
 		for _, it := range items {
@@ -332,13 +359,13 @@ func runBatch(s *script, sg *signal, rec *recorder, res *result) {
 		fail[k] = true
 	}
 	export := func(_ context.Context, req request.Request) error {
-		items, reqs, size, err := measure(sg, s, req)
+		m, err := measure(sg, s, req)
 		if err != nil {
-			items, reqs, size = []item{}, []int{}, -1
+			m = measured{items: []item{}, reqs: []int{}, size: -1}
 		}
 		var k int
 		var ferr error
-		ev := map[string]any{"ev": "emit", "items": items, "reqs": reqs, "size": size}
+		ev := map[string]any{"ev": "emit", "items": m.items, "reqs": m.reqs, "shells": m.shells, "size": m.size}
 		rec.log(ev, func() {
 			rec.calls++
 			k = rec.calls
